@@ -34,24 +34,24 @@ type finding struct {
 
 // Coverage is what one worker process reports to the orchestrator.
 type Coverage struct {
-	Property    string            `json:"property"`
-	World       string            `json:"world"`
-	Tier        string            `json:"tier"`
-	Evaluations int64             `json:"evaluations"`
-	Nontrivial  int64             `json:"nontrivial_runs"`
-	Signatures  []string          `json:"signatures"` // distinct non-trivial run signatures (hashed)
-	SigExamples []string          `json:"signature_examples"`
-	Faults      map[string]int64  `json:"faults_fired"`
-	Probes      map[string]int64  `json:"probes_hit"`
-	Counters    map[string]int64  `json:"counters"`
+	Property    string              `json:"property"`
+	World       string              `json:"world"`
+	Tier        string              `json:"tier"`
+	Evaluations int64               `json:"evaluations"`
+	Nontrivial  int64               `json:"nontrivial_runs"`
+	Signatures  []string            `json:"signatures"` // distinct non-trivial run signatures (hashed)
+	SigExamples []string            `json:"signature_examples"`
+	Faults      map[string]int64    `json:"faults_fired"`
+	Probes      map[string]int64    `json:"probes_hit"`
+	Counters    map[string]int64    `json:"counters"`
 	Sets        map[string][]string `json:"sets"`
-	Samples     []Sample          `json:"samples"`
-	Digest      string            `json:"digest"`
-	KnownHits   map[string]int64  `json:"known_hits"`
-	Violations  int64             `json:"violations"`
-	SimNanos    int64             `json:"simulated_ns"`
-	WallS       float64           `json:"wall_s"`
-	Components  map[string]string `json:"components"`
+	Samples     []Sample            `json:"samples"`
+	Digest      string              `json:"digest"`
+	KnownHits   map[string]int64    `json:"known_hits"`
+	Violations  int64               `json:"violations"`
+	SimNanos    int64               `json:"simulated_ns"`
+	WallS       float64             `json:"wall_s"`
+	Components  map[string]string   `json:"components"`
 }
 
 // Sample is one complete run written out.
